@@ -14,7 +14,7 @@ import struct
 
 import jbd2model as J
 from framework import Check, Outcome, main
-from jworld import build_journal_world, check_replayed, crash_log, install_journal, mask_volatile
+from jworld import build_journal_world, check_replayed, crash_log, install_journal, jplan_kw, mask_volatile
 from simcore import Plan, Rng, log_hash, run_sim, tool
 from world import e2fsck
 
@@ -31,7 +31,7 @@ class C03(Check):
             "committed region and applies the envelope oracle only.")
     assumptions = ["sync-commit ordering for the crash model: a commit block is on the medium only if the whole transaction is",
                    "fast-commit journals are not generated (block-image replay only)",
-                   "internal journals only in this version; external journal devices are exercised by C06 as inputs"]
+                   "internal journals and external journal devices (found through the simulated blkid lookup)"]
     reference_models = ["ref/jbd2model.py: writer + expected_blocks() (last committed image unless revoked by an equal or later "
                         "committed sequence; stop at first incomplete transaction)"]
 
@@ -63,7 +63,7 @@ class C03(Check):
             ti, pos, blk, role = jw["stream"][i]
             byte = crng.below(bs)
             bit = crng.below(8)
-            with open(jw["img"], "r+b") as f:
+            with open(jw["jimg"], "r+b") as f:
                 f.seek(jw["jblocks"][pos] * bs + byte)
                 c = f.read(1)
                 f.seek(jw["jblocks"][pos] * bs + byte)
@@ -73,8 +73,9 @@ class C03(Check):
         o.sample = {"format": fmtname, "bs": bs, "transactions": [[len(t.blocks), len(t.revokes), t.committed] for t in jw["txns"]],
                     "seq0": jw["seq0"], "start": jw["start"], "maxlen": jw["jsb"]["maxlen"], "wrapped": jw["wrapped"],
                     "stale": jw["stale"], "crash": cdesc, "expected_replayed": nreplayed, "rot": rot,
-                    "features": ",".join(jw["cfg"]["features"])}
+                    "features": ",".join(jw["cfg"]["features"]), "external_journal": bool(jw["jdev"])}
         o.stats["format." + fmtname] += 1
+        o.stats["journal." + ("external" if jw["jdev"] else "internal")] += 1
         o.stats["crash." + cdesc["mode"]] += 1
         if jw["wrapped"]:
             o.stats["probe.log_wrapped"] += 1
@@ -89,24 +90,34 @@ class C03(Check):
         for fe in spec["frontends"]:
             work = os.path.join(wd, "work.img")
             shutil.copyfile(jw["img"], work)
+            devs = [work]
+            pkw = {}
+            jwork = None
+            if jw["jdev"]:
+                jwork = os.path.join(wd, "work.jdev")
+                shutil.copyfile(jw["jdev"], jwork)
+                devs = [work, (jwork, "blk dz")]
+                pkw = {"extjournal": jwork}
             if fe == "e2fsck":
-                r, _codes = e2fsck(work, ["-fy", "-E", "journal_only"], wd, tag="rec", clock=1500020000, keep_log=True, problems=False)
+                r, _codes = e2fsck(work, ["-fy", "-E", "journal_only"], wd, tag="rec", clock=1500020000, keep_log=True, problems=False,
+                                   devices=devs, plan_kw=pkw)
             else:
-                r = run_sim([tool("debugfs"), "-w", "-R", "jr", work], Plan([work], None, clock=1500020000, rand_seed=3), wd,
+                r = run_sim([tool("debugfs"), "-w", "-R", "jr", work], Plan(devs, None, clock=1500020000, rand_seed=3, **pkw), wd,
                             tag="rec", keep_log=True)
+            jpost = open(jwork, "rb").read() if jwork else None
             traces.append(log_hash(r.events))
             o.sim_us += r.sim_us
             o.evals += 1
             post = open(work, "rb").read()
             results[fe] = (r, post)
-            where = "%s, format %s, bs %d, %d txn(s) (%d expected replayed), start %d/%d, seq0 %#x, stale=%s, crash=%s" % (
-                fe, fmtname, bs, len(jw["txns"]), nreplayed, jw["start"], jw["jsb"]["maxlen"], jw["seq0"], jw["stale"], cdesc)
+            where = "%s, %s journal, format %s, bs %d, %d txn(s) (%d expected replayed), start %d/%d, seq0 %#x, stale=%s, crash=%s" % (
+                fe, "external" if jw["jdev"] else "internal", fmtname, bs, len(jw["txns"]), nreplayed, jw["start"], jw["jsb"]["maxlen"], jw["seq0"], jw["stale"], cdesc)
             if r.san or r.signal or r.timeout:
                 o.violate("%s|abnormal|%s" % (fe, r.san[0] if r.san else "signal"),
                           "recovery ended abnormally (%s): %s\n%s" % (r.brief(), where, r.san_text or r.err.decode("latin1")[-500:]))
                 continue
             if rot is None:
-                bad = check_replayed(post, jw, exp, untouched)
+                bad = check_replayed(post, jw, exp, untouched, jpost=jpost)
                 for clause, detail in bad[:2]:
                     o.violate("%s|%s|%s" % (fe, fmtname, clause), "%s: %s\n(tool exit status %s, output tail: %s)" %
                               (where, detail, r.status, (r.out + r.err).decode("latin1")[-400:].replace("\n", " | ")), skey=clause)
@@ -128,7 +139,7 @@ class C03(Check):
                                   "%s, one bit flipped in the %s block of txn %d: fs block %d holds bytes that were never logged for it" %
                                   (where, rot["role"], rot["txn"], b))
                         break
-                o.stats["rot.%s.%s" % (rot["role"], "same_as_clean" if not check_replayed(post, jw, exp, untouched) else "differs")] += 1
+                o.stats["rot.%s.%s" % (rot["role"], "same_as_clean" if not check_replayed(post, jw, exp, untouched, jpost=jpost) else "differs")] += 1
         if nreplayed:
             o.distinct.add("%s|%d|%d|%s|%s|%s" % (fmtname, nreplayed, 1 if jw["wrapped"] else 0, jw["stale"], cdesc["mode"],
                                                   "rot" if rot else "crash"))
